@@ -40,7 +40,7 @@ from .interp import AwaitableVal, Builtin, ClassVal, ExcVal, NS, PyExc, exc_clas
 
 PENDING, RESULT, EXC, CANCELLED = 0, 1, 2, 3
 
-register_class("Future", {"state": INT, "result": OBJ, "exc": OBJ}, kind="env")
+register_class("Future", {"state": INT, "result": OBJ, "exc": OBJ, "$awaited": BOOL}, kind="env")  # $awaited (ghost): some task has it as its _fut_waiter
 register_class("AEvent", {"flag": BOOL}, kind="env")
 register_class(
     "Task",
@@ -684,6 +684,7 @@ def fut_result(ip, f):
 def new_future(ip, *a, **k):
     r = Sym(ip.st.alloc("Future"), RefT("Future"))
     ip.st.put("Future", "state", r.t, z3.IntVal(PENDING))
+    ip.st.put("Future", "$awaited", r.t, z3.BoolVal(False))
     return r
 
 
@@ -1091,6 +1092,8 @@ def b_isinf(ip, x):
         return math.isinf(x)
     if isinstance(x, Sym) and x.ty is INT:
         return False
+    if isinstance(x, Sym) and x.ty is INTINF:
+        return Sym(x.t == -1, BOOL)
     if isinstance(x, Sym) and x.ty is REAL:
         return False  # symbolic reals are finite (interp.split_real)
     raise Unsupported("isinf")
